@@ -13,7 +13,8 @@ From Coq Require Import NArith List Bool Arith Lia.
 Import ListNotations.
 From HV Require Import lib.Harness model.Validity model.Builder model.Builder2 spec.BuilderS spec.BuilderWFS
   proofs.BuilderP proofs.BuilderExtP proofs.BuilderFrameP proofs.BuilderRulesP proofs.BuilderTypeP
-  proofs.Builder2UnfoldP proofs.Builder2InvP proofs.Builder2P spec.Builder2WFS proofs.Builder2FrameP proofs.Builder2RulesP.
+  proofs.BuilderInputsP proofs.Builder2UnfoldP proofs.Builder2InvP proofs.Builder2P spec.Builder2WFS proofs.Builder2FrameP
+  proofs.Builder2RulesP proofs.Builder2InputsP.
 Local Open Scope N_scope.
 
 (* ------------------------------------------------------------------ a link that is fine *)
@@ -712,12 +713,34 @@ Proof.
     + assert (r = 2) by lia. rewrite Hp, H in E. rewrite C in E. inversion E; subst nd. split; [reflexivity|exact I].
 Qed.
 
+(* ------------------------------------------------------------------ rule 8: counting facts that need the typed invariants *)
+Lemma cnt_placeholder2 st n p off : LinkInv2 st -> nthN (s_nodes st) n = Some (mk (Output []) p) -> cnt (s_links st) n off = 0.
+Proof.
+  intros LI En. apply countb_zero. intros e Hin. unfold LinkInv2 in LI. rewrite forallb_forall in LI. specialize (LI _ Hin).
+  unfold into. destruct (N.eqb_spec (e_dst e) n) as [Ed|_]; [|reflexivity]. cbn [andb].
+  destruct (e_doff e) as [b|] eqn:Eb; [|reflexivity]. exfalso.
+  unfold link_okb2, op_at in LI. rewrite Ed, En, Eb in LI. cbn [option_map mk n_op] in LI.
+  destruct (option_map n_op (nthN (s_nodes st) (e_src e))) as [so|]; [|discriminate].
+  destruct (e_soff e) as [a|]; [|discriminate]. cbn [val_in df_sig] in LI. rewrite nthN_nil in LI.
+  destruct (nthN (val_out so) a); destruct so; discriminate.
+Qed.
+Lemma closed_base_in tys o ins ts o' : open_op o ins -> set_out_types2 tys o ts = Ok o' -> base_in o' = base_in o.
+Proof.
+  intros [->|[->|(n & ->)]]; cbn; intros H.
+  - now inversion H.
+  - now inversion H.
+  - destruct ts as [|t other]; [discriminate|]. destruct (nthN tys t) as [[c rows| |]|]; try discriminate.
+    destruct rows as [|a [|jo [|]]]; try discriminate. destruct (row_eqb a _); [|discriminate].
+    inversion H. unfold base_in. cbn. now rewrite firstn_skipn, app_nil_r.
+Qed.
+
 Section TypeMain2.
   Variable tys : list tyinfo.
 
   Record Bpre2 (strict : bool) (st : store) (b : dfb) (e : env) (G : tenv) (S : senv) : Prop := {
     bq_inv : Inv2 st; bq_root : RootDF strict (s_nodes st); bq_base : Fbase2 st; bq_open : OpenB2 (s_nodes st) b;
-    bq_pos : EnvPos e; bq_W : Wsound (s_nodes st) e G; bq_S : Ssound (s_nodes st) e S; bq_links : LinkInv2 st }.
+    bq_pos : EnvPos e; bq_W : Wsound (s_nodes st) e G; bq_S : Ssound (s_nodes st) e S; bq_links : LinkInv2 st;
+    bq_once : InOnce st }.
 
   (* what the structural and the frame induction give for a statement / statement list / region *)
   Lemma stmt_pre2 s strict b st e st' e' G S : exec_stmt2 tys s b st e = Ok (st', e') -> croot_stmt strict s = true ->
@@ -725,7 +748,7 @@ Section TypeMain2.
     Inv2 st' /\ RootDF strict (s_nodes st') /\ Fbase2 st' /\ OpenB2 (s_nodes st') b /\ EnvPos e' /\ Keep st st' /\
     s_len st <= s_len st' /\ ClosedFrom (s_len st) (s_nodes st').
   Proof.
-    intros H Hc [I R F O EP _ _ _]. destruct (exec2_keeps_invariants tys) as (KS & _). destruct (exec2_frame tys) as (FS & _).
+    intros H Hc [I R F O EP _ _ _ _]. destruct (exec2_keeps_invariants tys) as (KS & _). destruct (exec2_frame tys) as (FS & _).
     destruct (KS s strict _ _ _ _ _ H Hc I R (OpenB2_WB2 _ _ O)) as [I' X].
     destruct (FS s strict _ _ _ _ _ H Hc F O EP) as (F' & K & L & EP' & CF).
     split; [exact I'|]. split; [eapply RootDF_ext; eauto|]. split; [exact F'|]. split; [eapply OpenB2_keep; eauto|]. auto.
@@ -735,7 +758,7 @@ Section TypeMain2.
     Inv2 st' /\ RootDF strict (s_nodes st') /\ Fbase2 st' /\ OpenB2 (s_nodes st') b /\ EnvPos e' /\ Keep st st' /\
     s_len st <= s_len st' /\ ClosedFrom (s_len st) (s_nodes st').
   Proof.
-    intros H Hc [I R F O EP _ _ _]. destruct (exec2_keeps_invariants tys) as (_ & _ & KL & _). destruct (exec2_frame tys) as (_ & _ & FL & _).
+    intros H Hc [I R F O EP _ _ _ _]. destruct (exec2_keeps_invariants tys) as (_ & _ & KL & _). destruct (exec2_frame tys) as (_ & _ & FL & _).
     destruct (KL l strict _ _ _ _ _ H Hc I R (OpenB2_WB2 _ _ O)) as [I' X].
     destruct (FL l strict _ _ _ _ _ H Hc F O EP) as (F' & K & L & EP' & CF).
     split; [exact I'|]. split; [eapply RootDF_ext; eauto|]. split; [exact F'|]. split; [eapply OpenB2_keep; eauto|]. auto.
@@ -745,7 +768,7 @@ Section TypeMain2.
     Inv2 st' /\ RootDF strict (s_nodes st') /\ Fbase2 st' /\ EnvPos e' /\ KeepX (b_parent b) (b_out b) st st' /\
     s_len st <= s_len st' /\ ClosedFrom (s_len st) (s_nodes st') /\ ClosedB tys st st' b /\ Ext st st'.
   Proof.
-    intros H Hc [I R F O EP _ _ _]. destruct (exec2_keeps_invariants tys) as (_ & KR & _). destruct (exec2_frame tys) as (_ & FR & _).
+    intros H Hc [I R F O EP _ _ _ _]. destruct (exec2_keeps_invariants tys) as (_ & KR & _). destruct (exec2_frame tys) as (_ & FR & _).
     destruct (KR r strict _ _ _ _ _ H Hc I R (OpenB2_WB2 _ _ O)) as [I' X].
     destruct (FR r strict _ _ _ _ _ H Hc F O EP) as (F' & K & L & EP' & CF & CB).
     split; [exact I'|]. split; [eapply RootDF_ext; eauto|]. auto 10.
@@ -779,14 +802,16 @@ Section TypeMain2.
     s_nodes st' = s_nodes st ++ [mk op' (b_parent b)] -> s_links st' = s_links st ++ new ->
     canon op0 = canon op' -> model_op2 op0 = true ->
     val_in op' = ts -> ord_out2 op' = true -> ord_in2 op' = true -> simple_node tys (mk op' (b_parent b)) = true ->
+    static_in op' = None ->
     Wsound (s_nodes st') (bind_outs (bind_stmt e id (s_len st)) (s_len st) rs) (tbind G rs (val_out op')) /\
     Ssound (s_nodes st') (bind_outs (bind_stmt e id (s_len st)) (s_len st) rs) ((id, true) :: S) /\
-    LinkInv2 st' /\ TypedFrom tys (s_len st) (s_nodes st').
+    LinkInv2 st' /\ TypedFrom tys (s_len st) (s_nodes st') /\ InOnce st'.
   Proof.
-    intros [I R (M & CP & LP) O EP W Ss LI] I' HT En1 HW En' El' Hcan Hm0 Hin Ho Hi Hsim.
+    intros [I R (M & CP & LP) O EP W Ss LI Q] I' HT En1 HW En' El' Hcan Hm0 Hin Ho Hi Hsim Hst.
     assert (GR : Grow2 (s_nodes st) (s_nodes st')) by (rewrite En'; apply Grow2_app).
     assert (Hn : nthN (s_nodes st') (s_len st) = Some (mk op' (b_parent b))) by (rewrite En'; unfold s_len; apply nthN_len).
-    split; [|split; [|split]].
+    split; [|split; [|split; [|split]]].
+    5: { eapply (InOnce_leaf st st1 st'); eauto; [exact (proj2 I)|]. cbn [mk n_op]. unfold base_in. rewrite Hst, Hin. cbn. lia. }
     - apply (Wsound_bind _ _ _ _ _ id rs Hn). eapply Wsound_grow; eauto.
     - eapply Ssound_bind; eauto. eapply Ssound_grow; eauto.
     - unfold LinkInv2. rewrite El', forallb_app. apply andb_true_iff. split; [eapply LinkInv2_grow; eauto|].
@@ -806,11 +831,11 @@ Section TypeMain2.
     add_node st co (b_parent b) = Ok (st1, d) -> add_node st1 (Input ti) d = Ok (st2, i) -> add_node st2 (Output []) d = Ok (st3, o) ->
     wire_up st3 d ws = Ok (st4, ts4) ->
     Forall2 (fun p t => type_at (s_nodes st) p = Some t) ws ts -> (forall w, In w ws -> 0 < fst w) ->
-    open_op co ti -> is_case co = false -> dataflow_child co = true -> val_in co = ts ->
+    open_op co ti -> is_case co = false -> dataflow_child co = true -> val_in co = ts -> static_in co = None ->
     Bpre2 strict st4 (mkb (s_len st) (s_len st + 1) (s_len st + 2)) e G S /\ d = s_len st /\ i = s_len st + 1 /\ o = s_len st + 2 /\
     Keep st st4 /\ s_len st4 = s_len st + 3 /\ ts4 = ts /\ nthN (s_nodes st4) (s_len st) = Some (mk co (b_parent b)).
   Proof.
-    intros [I R F O EP W Ss LI] A1 A2 A3 Wu HT Hpos Hop Hc Hdc Hin.
+    intros [I R F O EP W Ss LI Q] A1 A2 A3 Wu HT Hpos Hop Hc Hdc Hin Hst.
     destruct (new_container _ _ _ _ _ _ _ _ _ _ A1 A2 A3 I (OpenB2_WB2 _ _ O) (open_op_dfk _ _ Hop) Hdc) as (I3 & X3 & W3).
     pose proof (Frame_Same _ _ (wire_up_from_frame _ _ _ _ _ _ Wu)) as S4.
     pose proof (InvX_Same _ _ _ S4 I3) as I4.
@@ -834,17 +859,19 @@ Section TypeMain2.
       + intros w Hw. pose proof (Forall2_type_lt _ _ _ HT w Hw). unfold s_len. lia.
       + intros k nd _ E. exists nd. split; [now rewrite En4|apply grows2_refl].
       + exists (mk co (b_parent b)). split; [exact Hd|]. cbn [mk n_op]. rewrite Hin. intros j t Hj. now rewrite N.add_0_l.
+    - apply (InOnce_container st st3 st4 ws ts new co (b_parent b) ti Q (proj2 I) HW); [rewrite En4; exact En3|exact El4|].
+      unfold base_in. rewrite Hst, Hin. cbn. lia.
   Qed.
 
   (* DfBase.set_outputs at the end of a region *)
   Lemma region_close st1 b e1 G1 S1 oids ws outs st' :
     Inv2 st1 -> Fbase2 st1 -> OpenB2 (s_nodes st1) b -> Wsound (s_nodes st1) e1 G1 -> Ssound (s_nodes st1) e1 S1 -> LinkInv2 st1 ->
-    get_wires e1 oids = Ok ws -> wire_tys G1 oids = Some outs -> set_outputs2 tys st1 b ws = Ok st' ->
+    InOnce st1 -> get_wires e1 oids = Ok ws -> wire_tys G1 oids = Some outs -> set_outputs2 tys st1 b ws = Ok st' ->
     Wsound (s_nodes st') e1 G1 /\ Ssound (s_nodes st') e1 S1 /\ LinkInv2 st' /\
     nthN (s_nodes st') (b_parent b + 2) = Some (mk (Output outs) (b_parent b)) /\ Grow2 (s_nodes st1) (s_nodes st') /\
-    (forall lo, b_parent b + 2 < lo -> TypedFrom tys lo (s_nodes st1) -> TypedFrom tys lo (s_nodes st')).
+    (forall lo, b_parent b + 2 < lo -> TypedFrom tys lo (s_nodes st1) -> TypedFrom tys lo (s_nodes st')) /\ InOnce st'.
   Proof.
-    intros I1 (M1 & _ & _) O1 W1 Ss1 LI1 Gw WO SO.
+    intros I1 (M1 & _ & _) O1 W1 Ss1 LI1 Q1 Gw WO SO.
     destruct (set_outputs2_spec _ _ _ _ _ SO O1) as (ts & new & o & ins & pp & o' & HW & El' & Hp1 & Hop & Hs & En').
     destruct O1 as (Ei & Eo & o1 & ins1 & pp1 & Hp1' & Hop1 & Hi1 & Ho1). rewrite Eo in HW.
     assert (En0 : s_nodes st1 = s_nodes st1 ++ []) by now rewrite app_nil_r.
@@ -858,8 +885,11 @@ Section TypeMain2.
     assert (GR : Grow2 (s_nodes st1) (s_nodes st')) by (eapply Grow2_trans; eauto).
     assert (Ho' : nthN (s_nodes st') (p + 2) = Some (mk (Output outs) p)).
     { rewrite En'. rewrite nthN_set_nth_neq by lia. unfold l2. now apply nthN_set_nth_eq. }
-    split; [eapply Wsound_grow; eauto|]. split; [eapply Ssound_grow; eauto|]. split; [|split; [exact Ho'|split; [exact GR|]]].
+    split; [eapply Wsound_grow; eauto|]. split; [eapply Ssound_grow; eauto|]. split; [|split; [exact Ho'|split; [exact GR|split]]].
     2: { intros lo Hlo T. rewrite En'. apply TypedFrom_set; [apply TypedFrom_set; [exact T|lia]|lia]. }
+    2: { eapply (InOnce_close st1 st' p pp o o' outs ws new); eauto.
+         - intros off. eapply cnt_placeholder2; eauto.
+         - eapply closed_base_in; eauto. }
     unfold LinkInv2. rewrite El', forallb_app. apply andb_true_iff. split; [eapply LinkInv2_grow; eauto|].
     eapply (WNew_link_ok2 _ _ _ _ _ _ HW).
     - exact (proj1 (proj1 I1)).
@@ -872,28 +902,29 @@ Section TypeMain2.
   Definition TS2 (s : stmt2) : Prop := forall strict b st e st' e' G S G' S',
     exec_stmt2 tys s b st e = Ok (st', e') -> wt_stmt2 tys s G S = Some (G', S') -> croot_stmt strict s = true ->
     Bpre2 strict st b e G S ->
-    Wsound (s_nodes st') e' G' /\ Ssound (s_nodes st') e' S' /\ LinkInv2 st' /\ TypedFrom tys (s_len st) (s_nodes st').
+    Wsound (s_nodes st') e' G' /\ Ssound (s_nodes st') e' S' /\ LinkInv2 st' /\ TypedFrom tys (s_len st) (s_nodes st') /\ InOnce st'.
   Definition TR2 (r : region2) : Prop := forall strict b st e st' e' G S G' S' ins outs,
     exec_region2 tys r b st e = Ok (st', e') -> wt_region2 tys r ins G S = Some (G', S', outs) -> croot_region strict r = true ->
     Bpre2 strict st b e G S -> (exists o pp, nthN (s_nodes st) (b_parent b) = Some (mk o pp) /\ open_op o ins) ->
     Wsound (s_nodes st') e' G' /\ Ssound (s_nodes st') e' S' /\ LinkInv2 st' /\ TypedFrom tys (s_len st) (s_nodes st') /\
-    nthN (s_nodes st') (b_parent b + 2) = Some (mk (Output outs) (b_parent b)).
+    nthN (s_nodes st') (b_parent b + 2) = Some (mk (Output outs) (b_parent b)) /\ InOnce st'.
   Definition TL2 (l : stmts2) : Prop := forall strict b st e st' e' G S G' S',
     exec_stmts2 tys l b st e = Ok (st', e') -> wt_stmts2 tys l G S = Some (G', S') -> croot_stmts strict l = true ->
     Bpre2 strict st b e G S ->
-    Wsound (s_nodes st') e' G' /\ Ssound (s_nodes st') e' S' /\ LinkInv2 st' /\ TypedFrom tys (s_len st) (s_nodes st').
+    Wsound (s_nodes st') e' G' /\ Ssound (s_nodes st') e' S' /\ LinkInv2 st' /\ TypedFrom tys (s_len st) (s_nodes st') /\ InOnce st'.
   Definition TC2 (cs : cases2) : Prop := forall strict c rows others s pp bs cur st e st' e' bs' cur' G S G' S' cur2,
     exec_cases2 tys cs c bs cur st e = Ok (st', e', bs', cur') -> wt_cases2 tys cs rows others G S cur = Some (G', S', cur2) ->
     croot_cases strict cs = true ->
     Inv2 st -> RootDF strict (s_nodes st) -> Fbase2 st -> EnvPos e -> CasesInv (s_nodes st) c rows others s pp cur bs ->
-    c + 1 + 3 * lenN rows <= s_len st -> Wsound (s_nodes st) e G -> Ssound (s_nodes st) e S -> LinkInv2 st ->
-    cur2 = cur' /\ Wsound (s_nodes st') e' G' /\ Ssound (s_nodes st') e' S' /\ LinkInv2 st' /\ TypedFrom tys (s_len st) (s_nodes st').
+    c + 1 + 3 * lenN rows <= s_len st -> Wsound (s_nodes st) e G -> Ssound (s_nodes st) e S -> LinkInv2 st -> InOnce st ->
+    cur2 = cur' /\ Wsound (s_nodes st') e' G' /\ Ssound (s_nodes st') e' S' /\ LinkInv2 st' /\ TypedFrom tys (s_len st) (s_nodes st') /\
+    InOnce st'.
   Definition TP2 (p : prog2) : Prop := forall e st' e' G S G' S' sin sout,
     exec_prog2 tys p e = Ok (st', e') -> wt_progx tys p G S = Some (G', S', (sin, sout)) -> croot_ok p = true ->
     EnvPos e -> Wsound [] e G -> Ssound [] e S ->
-    Wsound (s_nodes st') e' G' /\ Ssound (s_nodes st') e' S' /\ LinkInv2 st' /\ TypedFrom tys 0 (s_nodes st') /\
+    Wsound (s_nodes st') e' G' /\ Ssound (s_nodes st') e' S' /\ LinkInv2 st' /\ TypedFrom tys 0 (s_nodes st') /\ InOnce st' /\
     exists ro, nthN (s_nodes st') 0 = Some (mk ro 0) /\ val_in ro = sin /\ val_out ro = sout /\
-               ord_in2 ro = true /\ ord_out2 ro = true.
+               ord_in2 ro = true /\ ord_out2 ro = true /\ static_in ro = None.
 
   (* ---------------------------------------------------------------- small facts about the operations *)
   Lemma ord_out2_canon o : ord_out2 (canon o) = ord_out2 o. Proof. now destruct o. Qed.
@@ -913,6 +944,14 @@ Section TypeMain2.
     - destruct (find_sum tys [ts]); inversion H; reflexivity.
     - destruct ts as [|t [|]]; try discriminate. destruct (nthN tys t) as [[c rows| |]|]; try discriminate.
       destruct rows as [|rw [|]]; try discriminate. inversion H; reflexivity.
+  Qed.
+  Lemma completed_static o ts op' : completed_op tys o ts = Ok op' -> static_in op' = None.
+  Proof.
+    intros C. pose proof (completed_canon tys _ _ _ C) as Hc. destruct op', o; cbn in Hc; try discriminate; reflexivity.
+  Qed.
+  Lemma callind_static ts op' : completed_callind tys ts = Ok op' -> static_in op' = None.
+  Proof.
+    destruct ts as [|f r]; [discriminate|]. cbn. destruct (nthN tys f) as [[| |]|]; try discriminate. intros H. now inversion H.
   Qed.
   Lemma open_op_fun o ins ins' : open_op o ins -> open_op o ins' -> ins' = ins.
   Proof.
@@ -1008,13 +1047,15 @@ Section TypeMain2.
     - now apply Wsound_nil_any.
     - now apply Ssound_nil_any.
     - reflexivity.
+    - apply InOnce_nil. intros i nd E Hi. unfold nthN in E.
+      destruct (N.to_nat i) as [|[|[|k]]] eqn:Ek; cbn in E; try lia; try (destruct k; discriminate); inversion E; reflexivity.
   Qed.
 
   Lemma Bpre2_of_pre strict st b st' e' G' S' :
     Inv2 st' /\ RootDF strict (s_nodes st') /\ Fbase2 st' /\ OpenB2 (s_nodes st') b /\ EnvPos e' /\ Keep st st' /\
       s_len st <= s_len st' /\ ClosedFrom (s_len st) (s_nodes st') ->
-    Wsound (s_nodes st') e' G' -> Ssound (s_nodes st') e' S' -> LinkInv2 st' -> Bpre2 strict st' b e' G' S'.
-  Proof. intros (I & R & F & O & EP & _) W Ss LI. constructor; auto. Qed.
+    Wsound (s_nodes st') e' G' -> Ssound (s_nodes st') e' S' -> LinkInv2 st' -> InOnce st' -> Bpre2 strict st' b e' G' S'.
+  Proof. intros (I & R & F & O & EP & _) W Ss LI Q. constructor; auto. Qed.
 
   Lemma exec2_typed : (forall s, TS2 s) /\ (forall r, TR2 r) /\ (forall l, TL2 l) /\ (forall cs, TC2 cs) /\ (forall p, TP2 p).
   Proof.
@@ -1036,10 +1077,11 @@ Section TypeMain2.
       + apply initial_model2.
       + now apply row_eqb_eq.
       + eapply completed_simple; eauto.
+      + eapply completed_static; eauto.
     - (* TLoad *)
       intros id v cp r strict b st e st' e' G S G' S' H W Hc P.
       cbn [wt_stmt2] in W. destruct (value_ok tys [] v) eqn:VO; [|discriminate]. inversion W; subst G' S'; clear W.
-      destruct P as [I R F O EP Ws Ss LI].
+      destruct P as [I R F O EP Ws Ss LI Q0].
       rewrite exec_TLoad_SLoad in H. apply SLoad_spec in H. destruct H as (En' & El' & ->).
       assert (GR : Grow2 (s_nodes st) (s_nodes st')) by (rewrite En'; apply Grow2_app).
       assert (Hcn : nthN (s_nodes st') (s_len st) = Some (mk (Const v) (match cp with CHere => b_parent b | CRoot => 0 end)))
@@ -1047,7 +1089,8 @@ Section TypeMain2.
       assert (Hn : nthN (s_nodes st') (s_len st + 1) = Some (mk (LoadConst (value_ty v)) (b_parent b))).
       { rewrite En'. rewrite nthN_app_ge by (unfold s_len; lia). unfold s_len.
         replace (lenN (s_nodes st) + 1 - lenN (s_nodes st)) with 1 by lia. reflexivity. }
-      split; [|split; [|split]].
+      split; [|split; [|split; [|split]]].
+      5: { eapply (InOnce_load st st'); eauto; [exact (proj2 I)|reflexivity|reflexivity]. }
       + apply (Wsound_bind _ _ _ _ _ id [r] Hn). eapply Wsound_grow; eauto.
       + eapply Ssound_bind; eauto; try reflexivity. eapply Ssound_grow; eauto.
       + unfold LinkInv2. rewrite El', forallb_app. apply andb_true_iff. split; [eapply LinkInv2_grow; eauto|].
@@ -1064,14 +1107,14 @@ Section TypeMain2.
       pose proof (Wsound_wires _ _ _ (bq_W _ _ _ _ _ _ P) _ _ _ WT Gw) as HT.
       assert (ts = ts_s) by (eapply types_agree2; [exact HT|now apply wire_types_type_at]). subst ts_s.
       destruct (container_typed strict st b e G S ws ts (DFG ts []) ts _ _ _ _ _ _ _ _ P E1 E2 E3 E4 HT
-                  (get_wires_pos2 _ _ _ (bq_pos _ _ _ _ _ _ P) Gw) (or_introl eq_refl) eq_refl eq_refl eq_refl)
+                  (get_wires_pos2 _ _ _ (bq_pos _ _ _ _ _ _ P) Gw) (or_introl eq_refl) eq_refl eq_refl eq_refl eq_refl)
         as (P4 & -> & -> & -> & K4 & L4 & -> & Hd).
-      destruct (IH strict _ _ _ _ _ _ _ _ _ _ _ E5 WR Hc P4) as (W' & S' & LI' & T' & Ho').
+      destruct (IH strict _ _ _ _ _ _ _ _ _ _ _ E5 WR Hc P4) as (W' & S' & LI' & T' & Ho' & Q').
       { exists (DFG ts []), (b_parent b). split; [exact Hd|now left]. }
       destruct (region_pre2 _ _ _ _ _ _ _ _ _ E5 Hc P4) as (I' & _ & _ & _ & KX & L' & _ & (o & ins & pp & ts' & o' & Ha & Hop & Hs & Eb0 & Eb1 & Eb2) & _).
       cbn [b_parent b_out mkb] in *. rewrite Hd in Ha. inversion Ha; subst o pp; clear Ha. cbn in Hs. inversion Hs; subst o'; clear Hs.
       rewrite Eb2 in Ho'. inversion Ho'; subst ts'; clear Ho'.
-      split; [|split; [|split]].
+      split; [|split; [|split; [|split; [|exact Q']]]].
       + apply (Wsound_bind _ _ _ _ _ id rs Eb0 W').
       + eapply Ssound_bind; eauto; reflexivity.
       + exact LI'.
@@ -1081,9 +1124,10 @@ Section TypeMain2.
       intros src dst strict b st e st' e' G S G' S' H W Hc P.
       cbn [wt_stmt2] in W. destruct (order_ends_ok src dst && stmt_alive S src && stmt_alive S dst) eqn:OE; [|discriminate].
       inversion W; subst G' S'; clear W. apply andb_true_iff in OE. destruct OE as [OE A2]. apply andb_true_iff in OE. destruct OE as [OE A1].
-      destruct P as [I R F O EP Ws Ss LI].
+      destruct P as [I R F O EP Ws Ss LI Q0].
       rewrite exec_TOrder_SOrder in H. apply SOrder_spec in H. destruct H as (a & c & Na & Nc & En' & El' & ->).
-      rewrite En'. split; [exact Ws|]. split; [exact Ss|]. split; [|apply TypedFrom_nil].
+      assert (Q' : InOnce st') by (eapply InOnce_order; eauto).
+      rewrite En'. split; [exact Ws|]. split; [exact Ss|]. split; [|split; [apply TypedFrom_nil|exact Q']].
       unfold LinkInv2. rewrite En'. destruct El' as [->| ->]; [exact LI|].
       rewrite forallb_app. apply andb_true_iff. split; [exact LI|]. cbn [forallb]. rewrite andb_true_r.
       destruct (node_of_ord2 _ _ _ _ _ _ Na O Ss A1) as (na & Ea & Oa & _).
@@ -1114,13 +1158,14 @@ Section TypeMain2.
                   _ _ _ _ _ _ _ _ P E1 E2 E3 E4 HT Hpos (or_intror (or_intror (ex_intro _ (lenN jt) eq_refl))) eq_refl eq_refl)
         as (P4 & -> & -> & -> & K4 & L4 & -> & Hd).
       { cbn. now rewrite app_nil_r. }
-      destruct (IH strict _ _ _ _ _ _ _ _ _ _ _ E5 WR Hc P4) as (W' & S' & LI' & T' & Ho').
+      { reflexivity. }
+      destruct (IH strict _ _ _ _ _ _ _ _ _ _ _ E5 WR Hc P4) as (W' & S' & LI' & T' & Ho' & Q').
       { exists (TailLoop (jt ++ rt) [] [] (lenN jt)), (b_parent b). split; [exact Hd|right; right; eauto]. }
       destruct (region_pre2 _ _ _ _ _ _ _ _ _ E5 Hc P4) as (I' & _ & _ & _ & KX & L' & _ & (o & ins & pp & ts' & o' & Ha & Hop & Hs & Eb0 & Eb1 & Eb2) & _).
       cbn [b_parent b_out mkb] in *. rewrite Hd in Ha. inversion Ha; subst o pp; clear Ha.
       rewrite Eb2 in Ho'. inversion Ho'; subst ts'; clear Ho'.
       cbn in Hs. rewrite Et, firstn_lenN_app, skipn_lenN_app, row_eqb_refl in Hs. inversion Hs; subst o'; clear Hs.
-      split; [|split; [|split]].
+      split; [|split; [|split; [|split; [|exact Q']]]].
       + apply (Wsound_bind _ _ _ _ _ id rs Eb0 W').
       + eapply Ssound_bind; eauto; reflexivity.
       + exact LI'.
@@ -1137,7 +1182,7 @@ Section TypeMain2.
       destruct (exec_TCond_inv _ _ _ _ _ _ _ _ _ _ _ H)
         as (cw & ws & t & others & cp & rows & st1 & c & st2 & bs & st3 & ts3 & e4 & bs' & cur' &
             G1w & G2w & WTy & Et' & E1 & E2 & E3 & E4 & Hd & ->).
-      destruct P as [I R F O EP Ws Ss LI].
+      destruct P as [I R F O EP Ws Ss LI Q0].
       (* static and dynamic types agree *)
       destruct (Wsound_wire _ _ _ _ _ Ws WC) as (p0 & Ep0 & Tp0). rewrite G1w in Ep0. inversion Ep0; subst p0; clear Ep0.
       pose proof (Wsound_wires _ _ _ Ws _ _ _ WA G2w) as HTa.
@@ -1176,13 +1221,16 @@ Section TypeMain2.
         - intros w Hw. pose proof (Forall2_type_lt _ _ _ HT w Hw). unfold s_len. lia.
         - intros k nd _ E. exists nd. split; [now rewrite En3|apply grows2_refl].
         - exists (mk (Conditional (r0 :: rows') others [] t) (b_parent b)). split; [exact Hcn|]. cbn [mk n_op]. intros j t' Hj. now rewrite N.add_0_l. }
+      assert (Q3 : InOnce st3).
+      { eapply (InOnce_cond st st2 st3); eauto; [exact (proj2 I)|rewrite En3; exact EQ2|reflexivity|].
+        intros j nd Ej. eapply case_blocks_base_in; eauto. }
       destruct (IH strict _ _ _ _ _ _ _ _ _ _ _ _ _ _ _ _ _ _ E4 WCs Hc I3 (RootDF_ext _ _ _ X3 R) F3 EP CI3 ltac:(lia)
-                  (Wsound_grow _ _ _ _ GR3 Ws) (Ssound_grow _ _ _ _ GR3 Ss) LI3) as (Ecur & W' & S' & LI' & T').
+                  (Wsound_grow _ _ _ _ GR3 Ws) (Ssound_grow _ _ _ _ GR3 Ss) LI3 Q3) as (Ecur & W' & S' & LI' & T' & Q').
       destruct (exec2_frame tys) as (_ & _ & _ & FC & _).
       destruct (FC cs strict _ _ _ _ _ _ _ _ _ _ _ _ _ E4 Hc F3 EP CI3 ltac:(lia)) as (_ & L' & _ & CI' & _ & _).
       unfold cases_done in Hd. apply andb_true_iff in Hd. destruct Hd as [Hall Hsome]. subst cur'.
       pose proof (proj1 CI') as Hc'. cbn beta iota in Hc'.
-      split; [|split; [|split]].
+      split; [|split; [|split; [|split; [|exact Q']]]].
       + apply (Wsound_bind _ _ _ _ _ id rs Hc' W').
       + eapply Ssound_bind; eauto; reflexivity.
       + exact LI'.
@@ -1195,9 +1243,9 @@ Section TypeMain2.
       cbv zeta in W. destruct (wire_tys (splicew Gs G) args) as [ts_s|] eqn:WT; [|discriminate].
       destruct (row_eqb ts_s sin) eqn:CK; [|discriminate]. inversion W; subst G' S'; clear W. apply row_eqb_eq in CK. subst ts_s.
       destruct (exec_TInsert_inv _ _ _ _ _ _ _ _ _ _ H) as (sti & e1 & ws & st1 & m & r & ts & E0 & Gw & E2 & Er & E4 & ->).
-      destruct P as [I R (M & CP & LP) O EP Ws Ss LI]. cbn [croot_stmt] in Hc.
+      destruct P as [I R (M & CP & LP) O EP Ws Ss LI Q0]. cbn [croot_stmt] in Hc.
       destruct (IH _ _ _ _ _ _ _ _ _ E0 WP Hc EP (Wsound_kill _ [] _ _ Ws) (Ssound_kill _ [] _ _ Ss))
-        as (Wi & Si & LIi & Ti & ro & Hro & Hin & Hout & Oi & Oo).
+        as (Wi & Si & LIi & Ti & Qi & ro & Hro & Hin & Hout & Oi & Oo & Hsr).
       destruct (exec2_keeps_invariants tys) as (_ & _ & _ & _ & HP). destruct (HP sub _ _ _ E0 Hc) as [[Gi Li] Ki].
       destruct (exec2_frame tys) as (_ & _ & _ & _ & FP). destruct (FP sub _ _ _ E0 Hc EP) as ((Mi & CPi & LPi) & EP1 & CFi).
       pose proof (proj1 (proj2 (proj2 Gi))) as Bi.
@@ -1222,7 +1270,9 @@ Section TypeMain2.
       subst ts.
       assert (Hn : nthN (s_nodes st') (s_len st) = Some (mk ro (b_parent b))).
       { rewrite En4, A. unfold s_len. rewrite nthN_app_ge by lia. rewrite N.sub_diag, nthN_shifted, Hro. reflexivity. }
-      split; [|split; [|split]].
+      split; [|split; [|split; [|split]]].
+      5: { eapply (InOnce_insert st sti st1 st' (b_parent b) ws sin new ro); eauto; [exact (proj2 I)|].
+           unfold base_in. rewrite Hin, Hsr. cbn. lia. }
       + rewrite <- Hout. apply (Wsound_bind _ _ _ _ _ id rs Hn). eapply Wsound_grow; eauto.
       + eapply Ssound_bind; eauto. eapply Ssound_grow; eauto.
       + unfold LinkInv2. rewrite El4, B, !forallb_app. apply andb_true_iff. split; [apply andb_true_iff; split|].
@@ -1248,13 +1298,14 @@ Section TypeMain2.
       apply (leaf_typed strict st b e G S ws ts_s (CallIndirect [] [] 0) op' new st1 st' id rs P I' HT En1 HW En' El'); auto.
       + symmetry. eapply completed_callind_canon; eauto.
       + now apply row_eqb_eq.
+      + eapply callind_static; eauto.
     - (* Reg *)
       intros wids body IH oids strict b st e st' e' G S G' S' ins outs H W Hc P (o0 & pp0 & Hp0 & Hop0).
       cbn [wt_region2] in W.
       match type of W with match ?x with _ => _ end = _ => destruct x as [[G1 S1]|] eqn:WB; [|discriminate] end.
       destruct (wire_tys G1 oids) as [outs_s|] eqn:WO; [|discriminate]. inversion W; subst G' S' outs_s; clear W.
       destruct (exec_Reg_inv _ _ _ _ _ _ _ _ _ H) as (st1 & ws & X & Gw & SO).
-      pose proof P as [I R F O EP Ws Ss LI].
+      pose proof P as [I R F O EP Ws Ss LI Q0].
       pose proof O as (Ei & Eo & o1 & ins1 & pp1 & Hp1 & Hop1 & Hi1 & Ho1).
       rewrite Hp0 in Hp1. inversion Hp1; subst o1 pp1; clear Hp1.
       pose proof (open_op_fun _ _ _ Hop0 Hop1) as Ein. subst ins1.
@@ -1264,32 +1315,32 @@ Section TypeMain2.
         - now apply EnvPos_bind_in.
         - unfold bind_outs, tbind. rewrite Ei. now apply (Wsound_bind_from _ _ _ wids Hi1).
         - now apply Ssound_bind_in. }
-      destruct (IH strict _ _ _ _ _ _ _ _ _ X WB Hc P0) as (W1 & Ss1 & LI1 & T1).
+      destruct (IH strict _ _ _ _ _ _ _ _ _ X WB Hc P0) as (W1 & Ss1 & LI1 & T1 & Q1).
       destruct (stmts_pre2 _ _ _ _ _ _ _ _ _ X Hc P0) as (I1 & R1 & F1 & O1 & EP1 & K1 & L1 & _).
-      destruct (region_close _ _ _ _ _ _ _ _ _ I1 F1 O1 W1 Ss1 LI1 Gw WO SO) as (W' & S' & LI' & Ho' & _ & TT).
+      destruct (region_close _ _ _ _ _ _ _ _ _ I1 F1 O1 W1 Ss1 LI1 Q1 Gw WO SO) as (W' & S' & LI' & Ho' & _ & TT & Q').
       pose proof (OpenB2_lt _ _ O) as Lb. fold (s_len st) in Lb.
-      split; [exact W'|]. split; [exact S'|]. split; [exact LI'|]. split; [apply TT; [lia|exact T1]|exact Ho'].
+      split; [exact W'|]. split; [exact S'|]. split; [exact LI'|]. split; [apply TT; [lia|exact T1]|]. split; [exact Ho'|exact Q'].
     - (* TNil *)
       intros strict b st e st' e' G S G' S' H W _ P. apply exec_TNil_inv in H. destruct H as [-> ->].
-      cbn in W. inversion W; subst. destruct P as [I R F O EP Ws Ss LI]. split; [exact Ws|]. split; [exact Ss|]. split; [exact LI|apply TypedFrom_nil].
+      cbn in W. inversion W; subst. destruct P as [I R F O EP Ws Ss LI Q0]. split; [exact Ws|]. split; [exact Ss|]. split; [exact LI|]. split; [apply TypedFrom_nil|exact Q0].
     - (* TCons *)
       intros s IHs r IHr strict b st e st' e' G S G' S' H W Hc P. cbn [wt_stmts2] in W.
       match type of W with match ?x with _ => _ end = _ => destruct x as [[G1 S1]|] eqn:W1; [|discriminate] end.
       destruct (exec_TCons_inv _ _ _ _ _ _ _ _ H) as (st1 & e1 & X1 & X2).
       cbn [croot_stmts] in Hc. apply andb_true_iff in Hc. destruct Hc as [Hc1 Hc2].
-      destruct (IHs strict _ _ _ _ _ _ _ _ _ X1 W1 Hc1 P) as (Wa & Sa & LIa & Ta).
+      destruct (IHs strict _ _ _ _ _ _ _ _ _ X1 W1 Hc1 P) as (Wa & Sa & LIa & Ta & Qa).
       pose proof (stmt_pre2 _ _ _ _ _ _ _ _ _ X1 Hc1 P) as Pre1.
-      pose proof (Bpre2_of_pre _ _ _ _ _ _ _ Pre1 Wa Sa LIa) as P1.
-      destruct (IHr strict _ _ _ _ _ _ _ _ _ X2 W Hc2 P1) as (Wb & Sb & LIb & Tb).
+      pose proof (Bpre2_of_pre _ _ _ _ _ _ _ Pre1 Wa Sa LIa Qa) as P1.
+      destruct (IHr strict _ _ _ _ _ _ _ _ _ X2 W Hc2 P1) as (Wb & Sb & LIb & Tb & Qb).
       destruct (stmts_pre2 _ _ _ _ _ _ _ _ _ X2 Hc2 P1) as (_ & _ & _ & _ & _ & K2 & L2 & _).
-      split; [exact Wb|]. split; [exact Sb|]. split; [exact LIb|].
+      split; [exact Wb|]. split; [exact Sb|]. split; [exact LIb|]. split; [|exact Qb].
       eapply TypedFrom_keep; [exact Ta|exact L2| |exact Tb]. intros n _ Hn. now apply K2.
     - (* CNil *)
-      intros strict c rows others s pp bs cur st e st' e' bs' cur' G S G' S' cur2 H W _ I R F EP CI Lb Ws Ss LI.
+      intros strict c rows others s pp bs cur st e st' e' bs' cur' G S G' S' cur2 H W _ I R F EP CI Lb Ws Ss LI Q0.
       apply exec_CNil_inv in H. inversion H; subst. cbn in W. inversion W; subst.
-      split; [reflexivity|]. split; [exact Ws|]. split; [exact Ss|]. split; [exact LI|apply TypedFrom_nil].
+      split; [reflexivity|]. split; [exact Ws|]. split; [exact Ss|]. split; [exact LI|]. split; [apply TypedFrom_nil|exact Q0].
     - (* CCons *)
-      intros i r IHr rest IHrest strict c rows others s pp bs cur st e st' e' bs' cur' G S G' S' cur2 H W Hc I R F EP CI Lblk Ws Ss LI.
+      intros i r IHr rest IHrest strict c rows others s pp bs cur st e st' e' bs' cur' G S G' S' cur2 H W Hc I R F EP CI Lblk Ws Ss LI Q0.
       cbn [wt_cases2] in W. destruct (nthN rows i) as [row_s|] eqn:Er; [|discriminate].
       match type of W with match ?x with _ => _ end = _ => destruct x as [[[G1 S1] outs]|] eqn:WR; [|discriminate] end.
       destruct (exec_CCons_inv _ _ _ _ _ _ _ _ _ _ H) as (cb & st1 & e1 & ts & st2 & cur2d & Hn & X0 & Xo & X2 & X3).
@@ -1297,7 +1348,7 @@ Section TypeMain2.
       destruct (case_open _ _ _ _ _ _ _ _ _ _ CI Hn) as (row & Hrow & Hcb & OBc & Hcase & Lc & Lp).
       rewrite Er in Hrow. inversion Hrow; subst row_s. clear Hrow. rename Er into Hrow.
       assert (P : Bpre2 strict st cb e G S) by (constructor; auto).
-      destruct (IHr strict _ _ _ _ _ _ _ _ _ _ _ X0 WR Hc1 P) as (W1 & Ss1 & LI1 & T1 & Ho1).
+      destruct (IHr strict _ _ _ _ _ _ _ _ _ _ _ X0 WR Hc1 P) as (W1 & Ss1 & LI1 & T1 & Ho1 & Q1).
       { exists (Case (row ++ others) []), c. subst cb. cbn [b_parent mkb]. split; [exact Hcase|right; left; reflexivity]. }
       destruct (region_pre2 _ _ _ _ _ _ _ _ _ X0 Hc1 P) as (I1 & R1 & F1 & EP1 & KX & L1 & _ & CB & X1).
       destruct (cases_step _ _ _ _ _ _ _ _ _ _ _ _ _ _ _ _ CI Hn Hrow Hcb F1 KX CB Xo X2) as (F2 & L2 & -> & CI2 & K2 & _ & Eout & Hdisj).
@@ -1308,15 +1359,18 @@ Section TypeMain2.
       assert (LI2 : LinkInv2 st2).
       { unfold LinkInv2. replace (s_links st2) with (s_links st1) by (destruct Hdisj as [[_ ->]|(_ & _ & _ & ->)]; reflexivity).
         eapply LinkInv2_grow; eauto. }
+      assert (Q2 : InOnce st2).
+      { destruct Hdisj as [[_ ->]|(_ & Hc1n & En2 & El2)]; [exact Q1|].
+        exact (InOnce_set st1 st2 c (mk (Conditional rows others [] s) pp) (mk (Conditional rows others outs s) pp) Q1 Hc1n eq_refl En2 El2). }
       assert (Wrest : wt_cases2 tys rest rows others G1 S1 (Some outs) = Some (G', S', cur2)).
       { destruct cur as [o|]; [|exact W]. destruct (row_eqb o outs) eqn:Eo; [|discriminate]. apply row_eqb_eq in Eo. now subst o. }
       assert (Lc' : c < s_len st) by exact Lc.
       destruct (IHrest strict _ _ _ _ _ _ _ _ _ _ _ _ _ _ _ _ _ _ X3 Wrest Hc2 (InvX_Same _ _ _ S2 I1)
                   (RootDF_ext _ _ _ (Same_Ext _ _ S2) R1) F2 EP1 CI2 ltac:(lia)
-                  (Wsound_grow _ _ _ _ GR W1) (Ssound_grow _ _ _ _ GR Ss1) LI2) as (Ec & Wq & Sq & LIq & Tq).
+                  (Wsound_grow _ _ _ _ GR W1) (Ssound_grow _ _ _ _ GR Ss1) LI2 Q2) as (Ec & Wq & Sq & LIq & Tq & Qq).
       destruct (exec2_frame tys) as (_ & _ & _ & FC & _).
       destruct (FC rest strict _ _ _ _ _ _ _ _ _ _ _ _ _ X3 Hc2 F2 EP1 CI2 ltac:(lia)) as (_ & L' & _ & _ & K' & _).
-      split; [exact Ec|]. split; [exact Wq|]. split; [exact Sq|]. split; [exact LIq|].
+      split; [exact Ec|]. split; [exact Wq|]. split; [exact Sq|]. split; [exact LIq|]. split; [|exact Qq].
       assert (T2 : TypedFrom tys (s_len st) (s_nodes st2)).
       { destruct Hdisj as [[_ ->]|(_ & _ & En2 & _)]; [exact T1|]. rewrite En2. apply TypedFrom_set; [exact T1|exact Lc]. }
       eapply TypedFrom_keep; [exact T2|exact L'| |exact Tq].
@@ -1328,12 +1382,12 @@ Section TypeMain2.
       inversion W; subst G' S' sin sout; clear W.
       pose proof (init_Bpre2 (DFG ins []) ins e G S (or_introl eq_refl) eq_refl EP Ws Ss) as P0.
       match type of H with exec_region2 _ _ _ ?st _ = _ => set (st0 := st) in * end.
-      destruct (IH false _ _ _ _ _ _ _ _ _ _ _ H WR Hc P0) as (W' & S' & LI' & T' & Ho').
+      destruct (IH false _ _ _ _ _ _ _ _ _ _ _ H WR Hc P0) as (W' & S' & LI' & T' & Ho' & Q').
       { exists (DFG ins []), 0. split; [reflexivity|now left]. }
       destruct (region_pre2 _ _ _ _ _ _ _ _ _ H Hc P0) as (_ & _ & _ & _ & _ & _ & _ & (o & ins0 & pp & ts' & o' & Ha & Hop & Hs & Eb0 & Eb1 & Eb2) & _).
       cbn [b_parent mkb] in *. cbn in Ha. inversion Ha; subst o pp; clear Ha. cbn in Hs. inversion Hs; subst o'; clear Hs.
       rewrite Eb2 in Ho'. inversion Ho'; subst ts'; clear Ho'.
-      split; [exact W'|]. split; [exact S'|]. split; [exact LI'|]. split.
+      split; [exact W'|]. split; [exact S'|]. split; [exact LI'|]. split; [|split; [exact Q'|]].
       + eapply (container_typed_exit {| s_nodes := []; s_links := [] |} st0 st' 0 eq_refl eq_refl T').
         exists (DFG ins outs), 0, ins0, outs. repeat split; auto.
       + exists (DFG ins outs). repeat split; auto.
@@ -1348,13 +1402,13 @@ Section TypeMain2.
       pose proof (init_Bpre2 (TailLoop (just ++ rest) [] [] (lenN just)) (just ++ rest) e G S
                     (or_intror (or_intror (ex_intro _ (lenN just) eq_refl))) eq_refl EP Ws Ss) as P0.
       match type of H with exec_region2 _ _ _ ?st _ = _ => set (st0 := st) in * end.
-      destruct (IH false _ _ _ _ _ _ _ _ _ _ _ H WR Hc P0) as (W' & S' & LI' & T' & Ho').
+      destruct (IH false _ _ _ _ _ _ _ _ _ _ _ H WR Hc P0) as (W' & S' & LI' & T' & Ho' & Q').
       { exists (TailLoop (just ++ rest) [] [] (lenN just)), 0. split; [reflexivity|right; right; eauto]. }
       destruct (region_pre2 _ _ _ _ _ _ _ _ _ H Hc P0) as (_ & _ & _ & _ & _ & _ & _ & (o & ins0 & pp & ts' & o' & Ha & Hop & Hs & Eb0 & Eb1 & Eb2) & _).
       cbn [b_parent mkb] in *. cbn in Ha. inversion Ha; subst o pp; clear Ha.
       rewrite Eb2 in Ho'. inversion Ho'; subst ts'; clear Ho'.
       cbn in Hs. rewrite Et, firstn_lenN_app, skipn_lenN_app, row_eqb_refl in Hs. inversion Hs; subst o'; clear Hs.
-      split; [exact W'|]. split; [exact S'|]. split; [exact LI'|]. split.
+      split; [exact W'|]. split; [exact S'|]. split; [exact LI'|]. split; [|split; [exact Q'|]].
       + eapply (container_typed_exit {| s_nodes := []; s_links := [] |} st0 st' 0 eq_refl eq_refl T').
         exists (TailLoop just jo rest t), 0, ins0, (t :: rest). split; [exact Eb0|]. split; [|split; [exact Eb2|split; auto]].
         unfold node_okb2. cbn [mk n_op]. eapply is_sum_of_refl; eauto.
@@ -1383,13 +1437,16 @@ Section TypeMain2.
       assert (L1 : s_len st1 = 1 + 3 * lenN (r0 :: rows')).
       { unfold s_len. rewrite En1, lenN_cons, case_blocks_len. lia. }
       assert (LI1 : LinkInv2 st1) by (unfold LinkInv2; now rewrite El1).
+      assert (Q1 : InOnce st1).
+      { intros i nd Ei Hi off Hoff. rewrite En1 in Ei. replace i with ((i - 1) + 1) in Ei by lia. rewrite nthN_S in Ei.
+        rewrite (case_blocks_base_in _ _ _ _ _ _ Ei) in Hoff. lia. }
       destruct (IH true _ _ _ _ _ _ _ _ _ _ _ _ _ _ _ _ _ _ E1 WCs Hc I1 ltac:(intros Q; discriminate Q) F1 EP CI1 ltac:(lia)
-                  (Wsound_nil_any _ _ _ Ws) (Ssound_nil_any _ _ _ Ss) LI1) as (Ecur & W' & S' & LI' & T').
+                  (Wsound_nil_any _ _ _ Ws) (Ssound_nil_any _ _ _ Ss) LI1 Q1) as (Ecur & W' & S' & LI' & T' & Q').
       destruct (exec2_frame tys) as (_ & _ & _ & FC & _).
       destruct (FC cs true _ _ _ _ _ _ _ _ _ _ _ _ _ E1 Hc F1 EP CI1 ltac:(lia)) as (_ & L' & _ & CI' & _ & _).
       unfold cases_done in Hd. apply andb_true_iff in Hd. destruct Hd as [Hall Hsome]. subst cur'.
       pose proof (proj1 CI') as Hc'. cbn beta iota in Hc'.
-      split; [exact W'|]. split; [exact S'|]. split; [exact LI'|]. split.
+      split; [exact W'|]. split; [exact S'|]. split; [exact LI'|]. split; [|split; [exact Q'|]].
       + intros p nd Hp E. destruct (N.lt_ge_cases p (s_len st1)) as [Lt|Ge]; [|exact (T' _ _ Ge E)].
         eapply (cond_block_typed tys _ _ _ _ _ _ _ _ CI' Hall Hsum); eauto. lia.
       + exists (Conditional (r0 :: rows') others outs sumty). repeat split; auto.
@@ -1399,11 +1456,11 @@ End TypeMain2.
 (* ------------------------------------------------------------------ the theorems *)
 Theorem exec_prog2_typed tys p st e1 :
   wt_prog2 tys p = true -> croot_ok p = true -> exec_prog2 tys p env0 = Ok (st, e1) ->
-  LinkInv2 st /\ TypedFrom tys 0 (s_nodes st).
+  LinkInv2 st /\ TypedFrom tys 0 (s_nodes st) /\ InOnce st.
 Proof.
   unfold wt_prog2. intros W Hc H. destruct (wt_progx tys p [] []) as [[[G' S'] [sin sout]]|] eqn:WP; [|discriminate].
   destruct (exec2_typed tys) as (_ & _ & _ & _ & TP).
-  destruct (TP p _ _ _ _ _ _ _ _ _ H WP Hc EnvPos_env0) as (_ & _ & LI & T & _); [constructor|constructor|auto].
+  destruct (TP p _ _ _ _ _ _ _ _ _ H WP Hc EnvPos_env0) as (_ & _ & LI & T & Q & _); [constructor|constructor|auto].
 Qed.
 
 Theorem run2_typed_rules tys p g : wt_prog2 tys p = true -> croot_ok p = true -> run2 tys p = Ok g ->
@@ -1411,7 +1468,7 @@ Theorem run2_typed_rules tys p g : wt_prog2 tys p = true -> croot_ok p = true ->
   r_const tys [] g = true.
 Proof.
   intros W Hc H. unfold run2 in H. bd H. destruct v as [st e1]. cbn [fst] in H. inversion H; subst; clear H.
-  destruct (exec_prog2_typed _ _ _ _ W Hc E) as [LI T].
+  destruct (exec_prog2_typed _ _ _ _ W Hc E) as (LI & T & _).
   destruct (exec_prog2_frame _ _ _ _ E Hc) as ([(Ht & _ & Hb & _) _] & (M & CP & _) & CF).
   destruct (full_of_closed_typed _ _ CF T) as [Full NO].
   destruct (LinkInv2_rules _ LI) as [A B]. destruct (derived_types_of2 _ _ M NO) as [C D].
@@ -1430,3 +1487,52 @@ Definition ex_rest : prog2 :=
 Example ex_rest_refuted : wt_prog2 ex_rest_tys ex_rest = false /\ croot_ok ex_rest = true /\
   exists g, run2 ex_rest_tys ex_rest = Ok g /\ r_io_rows g = false.
 Proof. split; [vm_compute; reflexivity|]. split; [reflexivity|]. eexists. split; vm_compute; reflexivity. Qed.
+
+(* ------------------------------------------------------------------ rule 8: from the store to the resolved edges *)
+Lemma link_ok_resolve2 st e : link_okb2 (s_nodes st) e = true ->
+  exists r do_, resolve (to_serial st) (ser st e) = Some r /\ r_dst r = e_dst e /\ s_op st (e_dst e) = Some do_ /\
+    r_do r = match e_doff e with Some b => b | None => base_in do_ end.
+Proof.
+  unfold link_okb2, resolve, op_of, op_at, ser, constrain_out, constrain_in, s_op, to_serial.
+  cbn [g_nodes e_src e_dst e_soff e_doff].
+  destruct (option_map n_op (nthN (s_nodes st) (e_src e))) as [so|]; [|discriminate].
+  destruct (option_map n_op (nthN (s_nodes st) (e_dst e))) as [do_|] eqn:Ed; [|discriminate].
+  destruct (e_soff e) as [a|], (e_doff e) as [b|]; try discriminate.
+  - destruct (nthN (val_out so) a) as [t|] eqn:Ea.
+    + destruct (nthN (val_in do_) b) as [t'|] eqn:Eb.
+      * intros _. rewrite (proj1 (kind_out_value _ _ _ Ea)). eexists _, do_. repeat split.
+      * destruct so; try discriminate. cbn in Ea. rewrite nthN_nil in Ea. discriminate.
+    + destruct so; try discriminate. destruct do_; try discriminate. intros H.
+      apply andb_true_iff in H. destruct H as [H H3]. apply andb_true_iff in H. destruct H as [H1 H2].
+      apply N.eqb_eq in H1. subst a. cbn. eexists _, _. repeat split.
+  - intros H. apply andb_true_iff in H. destruct H as [H1 H2].
+    rewrite (proj1 (kind_out_order2 _ H1)). eexists _, do_. repeat split.
+Qed.
+
+Lemma links_into_cnt2 st i nd off : LinkInv2 st -> nthN (s_nodes st) i = Some nd -> off < base_in (n_op nd) ->
+  links_into (redges (to_serial st)) i off = cnt (s_links st) i off.
+Proof.
+  intros LI En Hoff. unfold redges, cnt, links_into. rewrite to_serial_edges. unfold LinkInv2 in LI.
+  induction (s_links st) as [|e l IH]; [reflexivity|]. cbn [forallb] in LI. apply andb_true_iff in LI. destruct LI as [Le Ll].
+  cbn [map flat_map countb]. rewrite countb_app, (IH Ll).
+  destruct (link_ok_resolve2 _ _ Le) as (r & do_ & Hr & Hd & Ho & Hdo). rewrite Hr. cbn [countb]. rewrite N.add_0_r.
+  f_equal. unfold into. rewrite Hd, Hdo. destruct (N.eqb_spec (e_dst e) i) as [Ei|_]; [|reflexivity]. cbn [andb].
+  destruct (e_doff e) as [b|]; [reflexivity|]. cbn [optN_eqb option_eqb].
+  rewrite Ei in Ho. unfold s_op in Ho. rewrite En in Ho. cbn in Ho. inversion Ho; subst do_.
+  destruct (N.eqb_spec (base_in (n_op nd)) off); [lia|reflexivity].
+Qed.
+
+Lemma inputs_once_of2 st : LinkInv2 st -> InOnce st -> r_inputs_once (to_serial st) = true.
+Proof.
+  intros LI Q. unfold r_inputs_once. apply forallb_forall. intros [i nd] Hin. cbn [fst snd].
+  apply in_indexed in Hin. cbn [to_serial g_nodes] in Hin.
+  destruct (N.eqb_spec i 0) as [|Hi]; [reflexivity|]. cbn [orb]. apply forallb_forall. intros off Hoff.
+  apply in_upto in Hoff. rewrite N2Nat.id in Hoff. apply N.eqb_eq.
+  rewrite (links_into_cnt2 _ _ _ _ LI Hin Hoff). eapply Q; eauto.
+Qed.
+
+Theorem run2_inputs_once tys p g : wt_prog2 tys p = true -> croot_ok p = true -> run2 tys p = Ok g -> r_inputs_once g = true.
+Proof.
+  intros W Hc H. unfold run2 in H. bd H. destruct v as [st e1]. cbn [fst] in H. inversion H; subst; clear H.
+  destruct (exec_prog2_typed _ _ _ _ W Hc E) as (LI & _ & Q). now apply inputs_once_of2.
+Qed.
